@@ -196,7 +196,9 @@ def scenario(kind, auth, script, ngood, burst=1, hostile_magic=None):
             if h.sock is not None:
                 h.sock.close()
         S.sim_time.sleep(0.5)
-        srv.close()
+        r = safe(srv.close)()
+        if r is not None:
+            obs["server.close"] = r
         S.sim_time.sleep(1.0)
         return obs
     return main
@@ -225,7 +227,9 @@ def concurrent_auth_scenario(kind):
             c.actor.stop = True
             if c.conn is not None:
                 c.graceful()
-        srv.close()
+        r = safe(srv.close)()
+        if r is not None:
+            obs["server.close"] = r
         S.sim_time.sleep(0.5)
         return obs
     return main
@@ -233,6 +237,8 @@ def concurrent_auth_scenario(kind):
 
 def judge_concurrent(obs, label):
     viol = []
+    if "server.close" in obs:
+        viol.append(("server-close-raised:%s" % obs["server.close"][1], "%s: %r" % (label, obs["server.close"])))
     for who in "ab":
         for k in (".whoami", ".whoami2"):
             got = obs.get(who + k)
@@ -281,6 +287,8 @@ def judge(obs, ngood, label):
             viol.append(("good-client:reference-broken", "%s: lend %r later %r" % (label, lr, rr)))
         elif idents[i] and idents[i][0] == "value" and lr[1] != idents[i][1]:
             viol.append(("reference-leaked-from-another-connection", "%s: client %d got object of instance %r" % (label, i, lr[1])))
+    if "server.close" in obs:
+        viol.append(("server-close-raised:%s" % obs["server.close"][1], "%s: %r" % (label, obs["server.close"])))
     cc = obs.get("cross-connection-id")
     if cc is not None and cc[0] != "refused":
         viol.append(("identifier-from-another-connection-accepted", "%s: %r" % (label, cc)))
@@ -399,8 +407,8 @@ def replay(rep):
     if rep.get("part", "").startswith("fd-reuse"):
         from checks import c17_serverclose as c17
         c17.watch_pool_lines()
-        a = c17.reuse_run("pool", oracle="C16")(rep["choices"], False, None)[1]["violations"]
-        b = c17.reuse_run("pool", oracle="C16")(rep["choices"], False, None)[1]["violations"]
+        a = c17.reuse_from_part(rep["part"], "C16")(rep["choices"], False, None)[1]["violations"]
+        b = c17.reuse_from_part(rep["part"], "C16")(rep["choices"], False, None)[1]["violations"]
     elif rep.get("part", "").endswith("/concurrent-auth"):
         watch_server_lines()
         kind = rep["part"].split("/")[1]
@@ -466,17 +474,7 @@ def main(tier, replay_obj=None):
 
     def unlisted(sig):
         return (PID, sig) not in known
-    ex = explore.ParallelExplorer(c17.reuse_run("pool", oracle="C16"), bound=1 if tier == "quick" else 2,
-                                  max_seconds=150 if tier == "quick" else 2500, max_execs=30000 if tier == "quick" else None,
-                                  stop_on_violation=unlisted)
-    ex.explore()
-    best = {}
-    for sig, text, ch in ex.violations:
-        if sig not in best or len(ch) < len(best[sig][1]):
-            best[sig] = (text, ch)
-    ex.violations = [(sg, t, ch) for sg, (t, ch) in sorted(best.items())]
-    res.add_explorer("fd-reuse/pool", ex)
-    res.bounds["fd-reuse/pool"] = ex.stats.bound_completed
+    c17.explore_reuse(res, tier, "C16", unlisted)
     for kind in ("threaded", "pool"):
         for auth in ((False,) if tier == "quick" else (False, True)):
             for name in SCHED_SCRIPTS if tier == "thorough" else SCHED_SCRIPTS[:3]:
